@@ -21,7 +21,7 @@ pub fn generate(ctx: &GenCtx, profile: &str, run: u64) -> Option<Plan> {
         "wire" => crate::gen2::wire(ctx, &mut rng, run),
         "wire-total" => crate::gen2::wire_total(ctx, &mut rng, run)?,
         "storage" => crate::gen2::storage(ctx, &mut rng, run)?,
-        "aux" => crate::gen2::aux(ctx, &mut rng, run),
+        "aux" | "aux-proc" => crate::gen2::aux(ctx, &mut rng, run),
         "aux-enum" => crate::gen2::aux_enum(ctx, &mut rng, run)?,
         "keygen" => crate::gen2::keygen(ctx, &mut rng, run),
         "purity" => crate::gen2::purity(ctx, &mut rng, run),
